@@ -1375,7 +1375,11 @@ class NinjaBackend(backends.Backend):
             elem.add_item('COMMAND', meson_exe_cmd)
             elem.add_item('description', f'Running external command {target.name}{cmd_type}')
             elem.add_item('pool', 'console')
-        deps = self.get_paths_for_dep_outputs(target, target.get_dependencies())
+        # A run target (or alias) that this one depends on is known to ninja
+        # under its own name, which carries the subproject prefix.
+        run_deps = [d for d in target.get_dependencies() if isinstance(d, build.RunTarget)]
+        deps = self.get_paths_for_dep_outputs(target, [d for d in target.get_dependencies() if d not in run_deps])
+        deps += [self.build_run_target_name(d) for d in run_deps]
         deps += self.get_target_depend_files(target)
         elem.add_dep(deps)
         self.add_build(elem)
